@@ -80,7 +80,8 @@ def plan(tier):
     cat = _get_catalogue(tier)
     ntasks = len(cat["tasks"])
     req = ["roundtrip:Mps", "roundtrip:MpDm", "roundtrip:Mpo", "roundtrip:TTNS", "complex", "qn-one", "qn-two",
-           "spill", "enum:python", "gen:2", "history:ioerror-swallowed", "pos:inside-dump", "control", "long-chain", "spill:accessor-walk"]
+           "spill", "enum:python", "gen:2", "history:ioerror-swallowed", "pos:inside-dump", "control", "long-chain", "spill:accessor-walk",
+           "thermal-job", "thermal-job:dump_mps=one", "thermal-job:dump_mps=all"]
     if cat["strace_available"] and "strace" in cat["enumerators"]:
         req.append("enum:strace")
     # a further generation exists only if the previous one left a directory state not seen before (restart closure)
@@ -385,12 +386,69 @@ def hermitian_mpo(ctx, gm, model, allow_complex):
     return None, None
 
 
+def thermal_job(ctx, tmp):
+    """The packaged thermal job with its own result dictionary and state dump: what it wrote must be what it holds, and
+    load_thermal_state must give back the propagated density operator."""
+    from renormalizer.mps import MpDm
+    from renormalizer.mps.thermalprop import ThermalProp, load_thermal_state
+    from renormalizer.utils import EvolveConfig, EvolveMethod
+    from rv.props import c10
+    rng = ctx.rng
+    ctx.cls("thermal-job")
+    model, desc = c10.holstein(ctx, max_dim=64)
+    nexc = int(rng.integers(0, 2))
+    mode = ["one", "all"][int(rng.integers(0, 2))]
+    ctx.cls("thermal-job:dump_mps=" + mode)
+    init = ctx.lib(MpDm.max_entangled_ex if nexc else MpDm.max_entangled_gs, model, what="MpDm.max_entangled")
+    init.compress_config = _fixed()
+    nsteps = int(rng.integers(1, 4))
+    tau = float(rng.uniform(0.05, 0.4))
+    ctx.describe({"kind": "thermal-job", "model": desc, "nexciton": nexc, "dump_mps": mode, "nsteps": nsteps, "tau": tau})
+    job = ctx.lib(ThermalProp, init, evolve_config=EvolveConfig(EvolveMethod.prop_and_compress), dump_mps=mode, dump_dir=tmp,
+                  job_name="thermal", what="ThermalProp(dump)")
+    ctx.lib(job.evolve, evolve_dt=-1j * tau, nsteps=nsteps, what="ThermalProp.evolve(dump)")
+    res_path = os.path.join(tmp, "thermal.npz")
+    if not ctx.check(os.path.exists(res_path), "thermal-job|result-file-missing", files=sorted(os.listdir(tmp))):
+        return
+    with np.load(res_path, allow_pickle=True) as z:
+        d = {k: z[k] for k in z.files}
+    ctx.count("oracle", 5)
+    ctx.check(np.allclose(d.get("time series", []), [k * tau for k in range(nsteps + 1)], rtol=1e-12, atol=1e-15),
+              "thermal-job|result-file|time-series-differs", got=d.get("time series"))
+    ctx.check(_same_bits(np.asarray(d.get("energies"), dtype=float), np.asarray(job.energies, dtype=float)),
+              "thermal-job|result-file|energies-differ-from-the-job")
+    ctx.check(_same_bits(np.asarray(d.get("electron occupations array"), dtype=float), np.asarray(job.e_occupations_array, dtype=float)),
+              "thermal-job|result-file|electron-occupations-differ-from-the-job")
+    ctx.check(_same_bits(np.asarray(d.get("phonon occupations array"), dtype=float), np.asarray(job.ph_occupations_array, dtype=float)),
+              "thermal-job|result-file|phonon-occupations-differ-from-the-job")
+    ctx.check(not [f for f in os.listdir(tmp) if f.endswith(".tmp") or f.endswith(".bak")], "thermal-job|leftover-temporary-files",
+              files=sorted(os.listdir(tmp)))
+    if mode == "one":
+        paths = [os.path.join(tmp, "thermal_mps.npz")]
+    else:
+        paths = [os.path.join(tmp, f"thermal_mps_{k}.npz") for k in range(1, nsteps + 1)]
+    for pth in paths:
+        ctx.count("oracle")
+        ctx.check(os.path.exists(pth), "thermal-job|state-file-missing", want=os.path.basename(pth), files=sorted(os.listdir(tmp)))
+    if os.path.exists(paths[-1]):
+        back = ctx.lib(load_thermal_state, model, paths[-1], what="load_thermal_state")
+        ctx.count("roundtrip_objects")
+        if ctx.check(back is not None, "thermal-job|load_thermal_state|returns-None-for-an-existing-file"):
+            compare_chain(ctx, "MpDm", job.latest_mps, back, "thermal-job|load_thermal_state")
+            ctx.nontrivial(("thermal-job", desc, nexc, mode, nsteps))
+    ctx.count("oracle")
+    none = ctx.lib(load_thermal_state, model, os.path.join(tmp, "no_such_state.npz"), what="load_thermal_state(missing)")
+    ctx.check(none is None, "thermal-job|load_thermal_state|missing-file-does-not-give-None", got=repr(none)[:80])
+
+
 def roundtrip_case(ctx, i):
     kind = ["Mps", "MpDm", "Mpo", "TTNS"][i % 4]
     ctx.cls(f"roundtrip:{kind}")
     tmp = tempfile.mkdtemp(prefix="rv_c14_")
     try:
-        if kind == "TTNS":
+        if kind == "MpDm" and i % 12 == 1:
+            thermal_job(ctx, tmp)
+        elif kind == "TTNS":
             roundtrip_tree(ctx, tmp)
         else:
             roundtrip_chain(ctx, kind, tmp)
